@@ -499,7 +499,7 @@ pub fn property(_tier: Tier) -> Property {
             cases: (400, 20_000),
             strategy: Box::new(giant_strategy),
             check: Box::new(check),
-        })],
+        }), crate::props::c06::context_part()],
         assumptions: vec![
             "MPD recognises list framing by exact comparison of the right-stripped line (client/Process.cxx)",
             "renderers that rewrite earlier buffer content are outside 'user-supplied strings'",
